@@ -11,6 +11,7 @@ automaton of C04 (family and apply mode recomputed per invocation).  change_cont
 from __future__ import annotations
 from typing import Optional
 
+from .diffrun import Config
 from . import c04, engine, profiles
 from .diffrun import Case, Trace
 
@@ -173,6 +174,13 @@ def run(tier: str) -> int:
                                 configs=profiles.amr_configs(ams=((1, 'r'), (0, 'o')), unwinds=(1, 0))),
         profiles.control_profile('cc', 10, 60, ORACLES + [('control-scope', oracle_control_scope)], actions_mode='states', per_tu=2,
                                  configs=profiles.amr_configs(ams=((1, 'r'), (0, 'o')), unwinds=(1, 0))),
+        # states are handed on by reference everywhere: a state passed to parse() that reports being copied, through every rule that
+        # switches action family, state or control, and through the rule-level action rules
+        profiles.systematic_profile('nocopy', lambda k, f: f in ('actrule', 'state', 'apply') or k in ('enable', 'disable', 'seq2', 'sor2', 'star1', 'at1', 'rematch2', 'tcrf', 'must1', 'control_rule'),
+                                    True, 22, 80, ORACLES, actions_mode='states',
+                                    inputs=profiles.inputs_exhaustive(3, 4, cap_q=50, cap_t=250), per_tu=2,
+                                    configs=lambda g, root, tier: [Config(root, 1, 'o', 'lf_crlf', 0, 1, 0, 0, 0, 10)],
+                                    ctx_names=['top', 'seq-tail', 'in-state', 'in-tcrf']),
     ]
     return engine.run_engine('C13', tier, ['PegtlVerif.Props.C13'], ps)
 
@@ -217,7 +225,7 @@ def oracle_control_scope(c: Case, tr: Trace) -> Optional[str]:
                 if nd.kind == 'control':
                     child = 2
                 elif nd.kind == 'action':
-                    cfam = nd.params[0][1] if isinstance(nd.params[0], tuple) else nd.params[0]
+                    cfam = nd.params[0][1] if isinstance(nd.params[0], (tuple, list)) else int(nd.params[0])
             stack.append({'id': nid, 'enter': k, 'body': body, 'child': child, 'cfam': cfam, 'hooks': 0,
                           'ctl': bool(nd is not None and nd.ctl and not reenter)})
         elif t == 'X':
